@@ -66,6 +66,17 @@ func runC14Sio(c *sim.Ctx, t *testing.T, failing bool) {
 		}
 		c.Count("failed_creations")
 	}
+	if c.Chance(1, 5, "badupdate") {
+		// (fault) an operator's update gives an existing machine a spec that does not compile:
+		// the request fails, the machine stays what and where it was
+		victim := mids[c.Intn(len(mids), "badupdatemid")]
+		bad := map[string]interface{}{"name": "bad", "nodes": map[string]interface{}{"start": map[string]interface{}{"action": map[string]interface{}{"interpreter": "no-such-interpreter", "source": "return {};"}}}}
+		m := map[string]interface{}{"id": "badupdate", "to": "captain", "update": map[string]interface{}{victim: map[string]interface{}{"spec": map[string]interface{}{"inline": bad}}}}
+		if c.Guard("ProcessMsg "+ref.Canon(m), func() { crew.ProcessMsg(ctx, vfJSONCopy(m)) }) {
+			return
+		}
+		c.Count("failed_spec_updates")
+	}
 	poisoned := map[string]bool{}
 	for k := 0; k < nmsgs; k++ {
 		if !failing && k > 0 && len(mids) > 1 && c.Chance(1, 6, "replace") {
